@@ -3,6 +3,8 @@
 case (PlacementSpec) =
     {"objs":  [{"k": "sig"|"out"|"in"|"var"|"tmp"}, ...],                       1..3 objects, all BitVector[4]
      "sites": [{"k": "seq"|"conc"|"always"|"inst"|"inline"|"block"|"dup_seq"|"dup_conc",
+                "extra": [[obj, acc], ...],                                      only inst/inline: further OUTPUT ports of the same
+                                                                                 instance (a root may be driven by >= 2 of them)
                 "n": 2|3, "how": "loop"|"factory",                               only dup_*: copies of one definition
                 "acts": [[obj, "r"|"w"|"rw", acc], ...],                         at most one entry per object
                 "body": [[obj, rw, acc], ...]}, ...]}                            only "always": process body of the same context
@@ -108,6 +110,10 @@ def _useless(case):
                     return True
                 if o not in first:
                     first[o] = rw
+    for s in case["sites"]:
+        for o, acc in s.get("extra", []):
+            if case["objs"][o]["k"] == "tmp":
+                return True
     return any("w" not in rw for rw in first.values())
 
 
@@ -121,15 +127,38 @@ def plan(tier):
     step = (n + nsh - 1) // nsh
     shards = [{"kind": "enum", "name": f"p2x2_{k}", "stride": stride, "lo": lo, "hi": min(n, lo + step)}
               for k, lo in builtins.enumerate(range(0, n, step))]
+    shards.append({"kind": "enum", "name": "inst2out", "space": "inst2out"})
     for i in range(nh):
         shards.append({"kind": "hyp", "name": f"place{i}", "examples": per})
     return shards
+
+
+_ACC_PAIRS = [(["whole"], ["whole"]), (["whole"], ["slice", 1, 0]), (["slice", 3, 2], ["whole"]), (["slice", 2, 1], ["slice", 3, 2]),
+              (["slice", 1, 0], ["slice", 3, 2]), (["slice", 3, 0], ["elem", 2]), (["elem", 1], ["elem", 1]), (["elem", 0], ["elem", 3]),
+              (["slice", 1, 0], ["elem", 2]), (["slice", 2, 0], ["slice", 2, 2]), (["dyn"], ["elem", 0]), (["whole"], ["dyn"])]
+
+
+def _inst2out_cases():
+    """one instance (architecture level or inline) with two output ports on one root x accessor pairs (overlapping,
+    disjoint) x object kind x {both outputs as `extra` | first as ordinary write act} x optional reader context"""
+    for sk in ("inst", "inline"):
+        for ok in ("sig", "out", "in", "var"):
+            for a, b in _ACC_PAIRS:
+                for form in (0, 1):
+                    for reader in (None, "conc", "seq"):
+                        site = {"k": sk, "acts": [], "extra": [[0, a], [0, b]]} if form == 0 else \
+                               {"k": sk, "acts": [[0, "w", a]], "extra": [[0, b]]}
+                        sites = [site] + ([{"k": reader, "acts": [[0, "r", ["whole"]]]}] if reader else [{"k": "conc", "acts": []}])
+                        yield {"objs": [{"k": ok}], "sites": sites}
 
 
 EXHAUSTIVE = {"quick": False, "thorough": False}
 
 
 def enumerate(shard):  # noqa: A001
+    if shard.get("space") == "inst2out":
+        yield from _inst2out_cases()
+        return
     stride = int(shard.get("stride", 1))
     lo, hi = shard["lo"], shard["hi"]
     for k, item in builtins.enumerate(itertools.islice(_enum_space(), 0, None, stride)):
@@ -170,6 +199,10 @@ def _cases(draw):
         if k.startswith("dup_"):
             s["n"] = draw(st.sampled_from([2, 2, 3]))
             s["how"] = draw(st.sampled_from(["loop", "factory"]))
+        if k in ("inst", "inline") and draw(st.integers(0, 2)) == 0:
+            cand = [oi for oi in range(no) if objs[oi]["k"] != "tmp"]
+            if cand:
+                s["extra"] = [[draw(st.sampled_from(cand)), draw(_ACC)] for _ in range(draw(st.integers(1, 2)))]
         if k == "always" and draw(st.booleans()):
             body = []
             for oi in range(no):
@@ -252,12 +285,18 @@ def render(case):
                 w(f"    o{oi} = Port.output({_acc_ty(acc)})")
                 outs.append((oi, acc))
                 n += 1
+        xouts = []
+        for j, (oi, acc) in builtins.enumerate(s.get("extra", [])):
+            w(f"    p{j} = Port.output({_acc_ty(acc)})")
+            xouts.append((j, acc))
         w("    def architecture(self):")
-        if outs:
+        if outs or xouts:
             w("        @std.concurrent")
             w("        def logic():")
             for oi, acc in outs:
                 w(f"            self.o{oi} <<= {'Null' if acc[0] in ('whole', 'slice') else 'False'}")
+            for j, acc in xouts:
+                w(f"            self.p{j} <<= {'Null' if acc[0] in ('whole', 'slice') else 'False'}")
         else:
             w("        pass")
         w("")
@@ -329,6 +368,8 @@ def render(case):
                 args.append(f"i{oi}={a}")
             if "w" in rw:
                 args.append(f"o{oi}={a}")
+        for j, (oi, acc) in builtins.enumerate(s.get("extra", [])):
+            args.append(f"p{j}={ref(oi) + _acc_sfx(acc)}")
         return f"{ind}Sub{si}({', '.join(args)})"
 
     for si, s in builtins.enumerate(sites):
@@ -349,12 +390,12 @@ def render(case):
             w("            with cohdl.always:")
             L.extend(stmts(si, "a", s["acts"], " " * 16))
         elif k == "inst":
-            if s["acts"]:
+            if s["acts"] or s.get("extra"):
                 w(inst(si, s, " " * 8))
         elif k == "inline":
             w("        @std.concurrent")
             w(f"        def site{si}():")
-            w(inst(si, s, " " * 12) if s["acts"] else " " * 12 + "pass")
+            w(inst(si, s, " " * 12) if (s["acts"] or s.get("extra")) else " " * 12 + "pass")
         elif k in ("dup_seq", "dup_conc"):
             deco = "@std.sequential(std.Clock(self.clk))" if k == "dup_seq" else "@std.concurrent"
             n = int(s.get("n", 2))
@@ -383,6 +424,18 @@ def render(case):
     return "\n".join(L) + "\n"
 
 
+def _overlap(a, b):
+    """do two static accessors of a 4-bit vector share an element?  (run-time index: may hit anything)"""
+    def rng(x):
+        if x[0] == "whole" or x[0] == "dyn":
+            return (0, 3)
+        if x[0] == "slice":
+            return (min(x[1], x[2]), max(x[1], x[2]))
+        return (x[1], x[1])
+    (a0, a1), (b0, b1) = rng(a), rng(b)
+    return not (a1 < b0 or b1 < a0)
+
+
 def tmp_creators(case):
     """tmp object -> (site index, part) of the first act (in trace order) that writes it"""
     out = {}
@@ -407,7 +460,8 @@ def expectation(case):
     for si, s in builtins.enumerate(sites):
         seen_w, seen_u = set(), set()
         copies = int(s.get("n", 2)) if s["k"].startswith("dup_") else 1  # every copy is a context of its own
-        for oi, rw, acc in list(s["acts"]) + list(s.get("body", [])):
+        extra = [[oi, "w", acc] for oi, acc in s.get("extra", [])] if s["k"] in ("inst", "inline") else []
+        for oi, rw, acc in list(s["acts"]) + list(s.get("body", [])) + extra:
             if oi not in seen_u:
                 users[oi].extend([(si, acc[0])] * copies)
                 seen_u.add(oi)
@@ -415,6 +469,18 @@ def expectation(case):
                 writers[oi].extend([(si, acc[0])] * copies)
                 seen_w.add(oi)
     reasons = []
+    # several output ports of ONE instance on one root: every output is a driver of its own; overlapping actuals must
+    # be rejected, disjoint slices/elements are the control (no expectation: cohdl may reject them at root level)
+    for si, s in builtins.enumerate(sites):
+        if s["k"] not in ("inst", "inline") or not s.get("extra"):
+            continue
+        outs = [(oi, acc) for oi, rw, acc in s["acts"] if "w" in rw] + [(oi, acc) for oi, acc in s["extra"]]
+        for a in range(len(outs)):
+            for b in range(a + 1, len(outs)):
+                if outs[a][0] == outs[b][0] and objs[outs[a][0]]["k"] != "tmp" and _overlap(outs[a][1], outs[b][1]):
+                    r = ("same_instance_outputs", objs[outs[a][0]]["k"], s["k"], "+".join(sorted({outs[a][1][0], outs[b][1][0]})))
+                    if r not in reasons:
+                        reasons.append(r)
     creators = tmp_creators(case)
     for oi, o in builtins.enumerate(objs):
         k = o["k"]
@@ -463,13 +529,15 @@ def check(case):
     out.labels.append("expect:" + ("must_reject" if exp["must_reject"] else "may_accept"))
     for r in exp["reasons"]:
         out.labels.append("reason:" + r[0])
+    if any(s.get("extra") for s in case["sites"]):
+        out.labels.append("multi_output_instance")
     src = render(case)
     try:
         vhdl = compile_source(src, "Top")
     except Rejected as r:
         out.status = "rejected"
         if exp["must_reject"]:
-            out.nontrivial = exp["max_writers"] >= 2 or any(r_[0].startswith("shared") for r_ in exp["reasons"])
+            out.nontrivial = exp["max_writers"] >= 2 or any(r_[0].startswith(("shared", "same_instance")) for r_ in exp["reasons"])
             out.labels.append("rejected_as_required")
         else:
             out.labels.append("rejected_but_should_accept:" + r.exc_type)
